@@ -656,7 +656,20 @@ def r06_18(ctx):
             if not bounds:
                 ctx.bad(construct, f"the loop target `{ast.unparse(lp.target)}` does not name the two bounds", f.loc(lp))
                 continue
-            raw = [x for x in ast.walk(lp) if isinstance(x, ast.Name) and x.id in bounds and isinstance(x.ctx, ast.Load)
+            # names holding a bound: the loop targets, and what iterates over a literal tuple / list of them
+            holders = set(bounds)
+            feeding = set()
+            changed = True
+            while changed:
+                changed = False
+                for x in ast.walk(lp):
+                    it, tg = (x.iter, x.target) if isinstance(x, (ast.For, ast.comprehension)) else (None, None)
+                    if isinstance(it, (ast.Tuple, ast.List)) and it.elts and all(isinstance(e, ast.Name) and e.id in holders for e in it.elts) and isinstance(tg, ast.Name):
+                        feeding |= {id(e) for e in it.elts}
+                        if tg.id not in holders:
+                            holders.add(tg.id)
+                            changed = True
+            raw = [x for x in ast.walk(lp) if isinstance(x, ast.Name) and x.id in holders and isinstance(x.ctx, ast.Load) and id(x) not in feeding
                    and not (isinstance(repo.parent(x), ast.Attribute) and repo.parent(x).attr in ("str_value", "name"))]
             (ctx.bad(construct, f"`{raw[0].id}` (a Symbol object) is used as it is at line {raw[0].lineno}: json.dump raises TypeError for an option with an active range",
                      f.loc(raw[0])) if raw else ctx.ok(construct, f.loc(lp)))
